@@ -899,8 +899,11 @@ fn run_split(st: &mut St, r: &mut Rng, n: usize, deadline: Instant) {
                     }
                     _ => (0..cnt).filter(|_| r.chance(1, 4)).collect(),
                 };
+                // a little over the limit, or several times over it (a chunk of k spans that is
+                // more than k times the limit)
+                let mult = if r.chance(1, 2) { 1 } else { 2 + r.below(5) };
                 for p in positions {
-                    let sz = 8000 + r.below(3000);
+                    let sz = 8000 * mult + r.below(3000);
                     batch[p] = sized_record(r, sz);
                 }
             }
